@@ -75,6 +75,12 @@ Theorem C01_db_bpseq_db : forall s sq ps, parse_db s = Ok ps -> length sq = leng
 Proof. exact db_bpseq_db. Qed.
 Print Assumptions C01_db_bpseq_db.
 
+(* every member of the all-dot-brackets list is a lossless encoding too (with C16: the members are the greedy-stable assignments) *)
+From RV Require Import Model.AllDb Proofs.C01AllDb.
+Theorem C01_all_db_lossless : forall b L s, valid b = true -> all_db b = Ok L -> In s L -> lossless b s = true.
+Proof. exact all_db_members_lossless. Qed.
+Print Assumptions C01_all_db_lossless.
+
 (* non-vacuity and the negative example: a kissing pattern; a proper assignment is lossless,
    an improper one (two crossing stems on one level) is not *)
 Example C01_nonvacuous :
